@@ -66,3 +66,13 @@ N("c10-n-sem-flip", "C10", A, "Semaphore.acquire", "if self._value > 0 and not s
 N("c10-n-setter-helper-loop", "C10", A, "CapacityLimiter.total_tokens@setter",
   "        while self._wait_queue and len(self._borrowers) < self._total_tokens:\n            borrower, event = self._wait_queue.popitem(last=False)\n            self._borrowers.add(borrower)\n            event.set()\n",
   "        while True:\n            if not self._wait_queue:\n                break\n            if len(self._borrowers) >= self._total_tokens:\n                break\n            borrower, event = self._wait_queue.popitem(last=False)\n            self._borrowers.add(borrower)\n            event.set()\n")
+
+# ---- adapters / factories / async with (R10-h)
+M("c10-sem-adapter-drops-max", "C10", SYNC, "SemaphoreAdapter._semaphore", "self._initial_value, max_value=self._max_value", "self._initial_value", ["R10-h"])
+M("c10-sem-adapter-release-twice", "C10", SYNC, "SemaphoreAdapter.release", "        self._semaphore.release()", "        if self._internal_semaphore is not None and self._internal_semaphore.value == 0:\n            return\n        self._semaphore.release()", ["R10-h"])
+M("c10-sem-aexit-conditional", "C10", SYNC, "Semaphore.__aexit__", "        self.release()", "        if exc_val is None:\n            self.release()", ["R10-h"])
+M("c10-limiter-adapter-wrong-borrower", "C10", SYNC, "CapacityLimiterAdapter.release_on_behalf_of", "self._limiter.release_on_behalf_of(borrower)", "self._limiter.release()", ["R10-h"])
+M("c10-limiter-adapter-acquire-not-awaited", "C10", SYNC, "CapacityLimiterAdapter.acquire_on_behalf_of", "        await self._limiter.acquire_on_behalf_of(borrower)", "        self._limiter.acquire_on_behalf_of_nowait(borrower)", ["R10-h"])
+M("c10-limiter-adapter-setter-lost", "C10", SYNC, "CapacityLimiterAdapter.total_tokens@setter", "        self._limiter.total_tokens = value", "        self._total_tokens = value", ["R10-h"])
+M("c10-limiter-adapter-available-stale", "C10", SYNC, "CapacityLimiterAdapter.available_tokens", "        return self._internal_limiter.available_tokens", "        return self._total_tokens", ["R10-h"])
+M("c10-limiter-factory-wrong-adapter-arg", "C10", SYNC, "CapacityLimiter.__new__", "return CapacityLimiterAdapter(total_tokens)", "return CapacityLimiterAdapter(1)", ["R10-h"])
